@@ -197,7 +197,7 @@ def mk_tuple(items):
         f = fn("tuple%d" % n, *([V] * n + [V]))
         xs = [const("t%d_%d" % (n, q)) for q in range(n)]
         app = f(*xs)
-        axiom("core", "tuple%d" % n, FA(xs, z3.And(len_(app) == n, *[nth(app, q) == xs[q] for q in range(n)]), [app]))
+        axiom("core", "tuple%d" % n, FA(xs, z3.And(len_(app) == n, app != NONE, *[nth(app, q) == xs[q] for q in range(n)]), [app]))
         _TUPLE_FNS[n] = f
     return _TUPLE_FNS[n](*items)
 
